@@ -47,7 +47,7 @@ CLAIMED = {
          "NormedSpace.exp(hat x) exactly, for every angle (beyond pi too) on the closed-form cell of the series coefficients, and at zero rotation. "
          "SE23Quat and SE23Mrp (their exp hands a 5x5 matrix to from_Matrix; that matrix is exposed by a probe of the real body, proved to be the matrix "
          "exponential, the outputs are proved to be from_Matrix of it, and to_Matrix o from_Matrix = id through C07's Shepperd theorem): same statement. "
-         "Corollaries exp((s+t)x) = exp(sx) exp(tx) and exp(-x) exp(x) = 1 for SO3Dcm, SO3Quat, SE2, SE3Quat on the cells (Props/C02C). "
+         "Corollaries exp((s+t)x) = exp(sx) exp(tx) and exp(-x) exp(x) = 1 for SO3Dcm, SO3Quat, SO3Mrp, SE2, SE3Quat, SE3Mrp on the cells (Props/C02C). "
          "Taylor cells (theta^2 < 1e-3) and the Euler target: numeric search only (named in evidence).",
          "DESIGN.md §2 C02", TECH_T),
  "C03": ("proof", "Lean 4 theorems over the regenerated log/exp programs: exp and log mutually inverse identically for SO2, R2, R3; SE2 "
